@@ -1,6 +1,7 @@
 package c11
 
 import (
+	"errors"
 	"io"
 
 	"verif/harness/kit"
@@ -160,6 +161,38 @@ type namedFile struct {
 func (f namedFile) Read(p []byte) (int, error) { return f.s.Read(p) }
 func (f namedFile) Close() error               { f.s.closed++; return nil }
 func (f namedFile) Name() string               { return f.name }
+
+// seekFile is a named source that can also be repositioned, as an *os.File can.
+type seekFile struct{ namedFile }
+
+func (f seekFile) Seek(offset int64, whence int) (int64, error) {
+	s := f.s
+	var base int64
+	switch whence {
+	case io.SeekStart:
+	case io.SeekCurrent:
+		base = int64(s.off)
+	case io.SeekEnd:
+		base = int64(len(s.data))
+	default:
+		return 0, errors.New("seek: invalid whence")
+	}
+	if base+offset < 0 {
+		return 0, errors.New("seek: negative position")
+	}
+	s.off = int(base + offset)
+	if s.off > len(s.data) {
+		s.off = len(s.data)
+	}
+	return int64(s.off), nil
+}
+
+type typedSeekFile struct {
+	seekFile
+	ct string
+}
+
+func (f typedSeekFile) ContentType() string { return f.ct }
 
 // typedFile additionally declares its content type.
 type typedFile struct {
